@@ -564,6 +564,7 @@ static bool read_whole(const std::string &p, std::string &out) {
   close(fd); return true;
 }
 static bool g_nofile_saved = false; static rlim_t g_nofile_soft = 0;
+static bool g_fd0_closed = false;
 static long count_fds() {
   long n = 0; DIR *d = opendir("/proc/self/fd"); if (!d) return -1;
   while (readdir(d)) n++;
@@ -1091,6 +1092,7 @@ static json run_plan(const json &plan) {
   json terr = json::array();
   if (plan.contains("tree")) for (auto &e : plan["tree"]) { json r = tree_entry(e); if (!r.empty()) { r["p"] = e.value("p", ""); terr.push_back(r); } }
   if (!terr.empty()) out["tree_errors"] = terr;
+  g_fd0_closed = false;
   g_cwd.clear();
   if (cfg.contains("cwd")) { g_cwd = subst_in(cfg["cwd"].get<std::string>()); mkdirs(g_cwd); if (chdir(g_cwd.c_str())) g_cwd.clear(); }
   sim_steps = 0;
@@ -1100,6 +1102,7 @@ static json run_plan(const json &plan) {
   if (plan.contains("tasks")) { for (auto &t : plan["tasks"]) { TaskRun tr; tr.ops = &t; trs.push_back(std::move(tr)); } }
   else if (plan.contains("ops")) { TaskRun tr; tr.ops = &plan["ops"]; trs.push_back(std::move(tr)); }
   for (size_t i = 0; i < trs.size(); i++) trs[i].ctx.id = (int)i;
+  if (cfg.value("fd0_free", false) && !R.passthrough) { close(0); g_fd0_closed = true; R.fired["descriptor_0_free"]++; }
   TaskRun pro, epi; bool has_pro = plan.contains("prologue"), has_epi = plan.contains("epilogue");
   if (has_pro) { pro.ops = &plan["prologue"]; pro.ctx.id = -1; run_task_ops(&pro); out["prologue"] = pro.results; }
   bool multi = plan.contains("sched") && trs.size() >= 1 && plan["sched"].value("threads", trs.size() > 1);
@@ -1184,7 +1187,7 @@ static json run_plan(const json &plan) {
       // (a process-wide cache); the executor retires when too much has piled up
       g_zombie_bytes += (long long)e.size;
     }
-    std::vector<std::string> open_files; for (auto &f : R.files) open_files.push_back(subst_out(f.second.second));
+    std::vector<std::string> open_files; for (auto &f : R.files) open_files.push_back(b2u(subst_out(f.second.second)));
     std::sort(open_files.begin(), open_files.end());
     out["ledger"] = json{{"allocs", R.n_alloc}, {"frees", R.n_free}, {"unknown_frees", R.n_unknown_free}, {"leaks", leaks}, {"leak_count", l.size()}, {"leak_bytes", leaked_bytes},
                          {"fopen", R.n_fopen}, {"fclose", R.n_fclose}, {"open_files", open_files}};
@@ -1192,6 +1195,7 @@ static json run_plan(const json &plan) {
     for (auto &f : R.files) __real_fclose(f.first);
     R.files.clear();
   }
+  if (g_fd0_closed) { if (fcntl(0, F_GETFD) == -1) { int nul = open("/dev/null", O_RDONLY); if (nul > 0) { dup2(nul, 0); close(nul); } } g_fd0_closed = false; }
   if (g_nofile_saved) { struct rlimit rl; getrlimit(RLIMIT_NOFILE, &rl); rl.rlim_cur = g_nofile_soft; setrlimit(RLIMIT_NOFILE, &rl); g_nofile_saved = false; }
   if (!g_cwd.empty()) { if (chdir("/")) {} g_cwd.clear(); }
   if (!cfg.value("keep_tree", false)) clear_sandbox();
@@ -1225,7 +1229,11 @@ int main(int argc, char **argv) {
   tsan_ignore_begin();
   mkdirs(g_root);
   signal(SIGPIPE, SIG_IGN);
-  FILE *in = stdin;
+  // the plans arrive on a private descriptor: descriptor 0 itself belongs to the simulated process (a daemon may run
+  // with its standard descriptors closed)
+  int plan_fd = fcntl(0, F_DUPFD_CLOEXEC, 200);
+  FILE *in = plan_fd >= 0 ? fdopen(plan_fd, "r") : stdin;
+  if (plan_fd >= 0) { int nul = open("/dev/null", O_RDONLY); if (nul >= 0) { dup2(nul, 0); if (nul != 0) close(nul); } }
   if (file && !(in = fopen(file, "r"))) { perror(file); return 2; }
   char *line = nullptr; size_t cap = 0; ssize_t n;
   while ((n = getline(&line, &cap, in)) > 0) {
@@ -1249,7 +1257,7 @@ int main(int argc, char **argv) {
     try { out = run_plan(plan); } catch (std::exception &e) { out = json{{"id", plan.value("id", "")}, {"fatal", std::string("executor exception: ") + e.what()}}; }
     bool retire = g_zombie_bytes > (256LL << 20);
     if (retire) out["recycle"] = true;
-    std::string s = out.dump(-1, ' ', true);
+    std::string s = out.dump(-1, ' ', true, json::error_handler_t::replace);   // never let a stray byte take the executor down
     fwrite(s.data(), 1, s.size(), stdout); fputc('\n', stdout); fflush(stdout);
     if (retire) break;
   }
